@@ -227,7 +227,7 @@ func c10Run(in c10In) c10Out {
 			defer w.Mu.Unlock()
 			r := map[string]vk.Node{}
 			for h, n := range w.Nodes {
-				r[h] = *n
+				r[h] = n.Snapshot()
 			}
 			return r
 		}
